@@ -231,23 +231,18 @@ def save_replay(prop, name, obj):
 
 
 # ----------------------------------------------------------------------------- trace validation loop
+from concurrent.futures import ThreadPoolExecutor
 
-def validate_programs(dirpath, module, tracespec, consts, cfg_lines, lines, key="prog", max_rounds=40, timeout=1800):
-    """Validate an ndjson trace made of independent programs (each starting with a Reset event)
-    against a trace specification.  When TLC rejects line n, the program containing it is set
-    aside (recorded as a rejection) and the remaining programs are validated again, so that one
-    rejection does not hide the rest of the trace.
-    Returns (rejections, stats) where rejections = [dict(prog=, line=event dict, index=)]."""
+
+def _validate_chunk(dirpath, module, tracespec, consts, cfg_lines, evs, max_rounds, timeout):
+    stage_specs(dirpath)
     write_mc(dirpath, module, tracespec, consts, cfg_lines)
-    evs = [json.loads(x) for x in lines]
     rejections = []
     stats = dict(states=0, distinct=0, runs=0, events_accepted=0, wall=0.0)
-    while True:
+    while evs:
         with open(os.path.join(dirpath, "trace.ndjson"), "w") as f:
             for e in evs:
                 f.write(json.dumps(e) + "\n")
-        if not evs:
-            break
         r = tlc(dirpath, module, workers=1, timeout=timeout)
         stats["runs"] += 1
         stats["wall"] += r.wall
@@ -260,12 +255,41 @@ def validate_programs(dirpath, module, tracespec, consts, cfg_lines, lines, key=
             stats["events_accepted"] += len(evs)
             break
         bad = evs[n - 1]
-        rejections.append(dict(prog=bad.get(key), index=n, event=bad))
+        rejections.append(dict(prog=bad.get("prog"), fork=bad.get("fork", 0), index=n, event=bad))
         stats["states"] += r.generated
-        evs = [e for e in evs if e.get(key) != bad.get(key)]
+        if bad.get("fork", 0) > 0:   # one alternative tried from a checkpoint: drop only that alternative
+            evs = [e for e in evs if not (e.get("prog") == bad.get("prog") and e.get("fork", 0) == bad.get("fork"))]
+        else:
+            evs = [e for e in evs if e.get("prog") != bad.get("prog")]
         if len(rejections) >= max_rounds:
-            log("[trace] more than %d rejected programs; remaining programs not examined" % max_rounds)
+            log("[trace] more than %d rejections in one chunk; the rest of the chunk is not examined" % max_rounds)
             break
+    return rejections, stats
+
+
+def validate_programs(dirpath, module, tracespec, consts, cfg_lines, lines, max_rounds=25, timeout=1800, chunks=None):
+    """Validate an ndjson trace made of independent programs (each starting with a Reset event)
+    against a trace specification.  When TLC rejects line n, the program (or the alternative tried
+    from a checkpoint) containing it is set aside as a rejection and the rest is validated again,
+    so that one rejection does not hide the rest of the trace.  Programs are spread over parallel
+    TLC processes.  Returns (rejections, stats)."""
+    evs = [json.loads(x) if isinstance(x, str) else x for x in lines]
+    progs = sorted(set(e.get("prog") for e in evs))
+    k = chunks or max(1, min(NCPU // 2, len(evs) // 4000 + 1))
+    groups = [[] for _ in range(k)]
+    where = {p: i % k for i, p in enumerate(progs)}
+    for e in evs:
+        groups[where[e.get("prog")]].append(e)
+    base = os.path.basename(dirpath.rstrip("/"))
+    with ThreadPoolExecutor(max_workers=k) as ex:
+        futs = [ex.submit(_validate_chunk, scratch("%s-tv%d" % (base, i)), module, tracespec, consts, cfg_lines, g, max_rounds, timeout)
+                for i, g in enumerate(groups) if g]
+        results = [f.result() for f in futs]
+    rejections, stats = [], dict(states=0, distinct=0, runs=0, events_accepted=0, wall=0.0)
+    for rj, st in results:
+        rejections += rj
+        for kk in stats:
+            stats[kk] += st[kk]
     return rejections, stats
 
 
